@@ -163,6 +163,51 @@ fn bundled_cases(std: &Value) -> Vec<Value> {
     out
 }
 
+/// Quantity::fit over a value sweep of every bundled unit: the fitted quantity is the same amount (fraction error
+/// included), measured with the specification's standard definitions where it has them
+fn fit_cases(std: &Value) -> Vec<Value> {
+    let conv = Converter::bundled();
+    let std_ratio = |u: &cooklang::convert::Unit| -> f64 {
+        let key = if u.symbol() == "fl oz" { "floz" } else { u.symbol() };
+        std["defs"].get(key).and_then(|s| s.as_str()).and_then(|s| s.parse().ok()).unwrap_or(u.ratio)
+    };
+    let mut grid: Vec<f64> = (1..=400).map(|k| k as f64 * 0.05).collect();
+    grid.extend([0.875, 6.35, 0.3, 33.0, 48.0, 100.0, 128.0, 1000.0, 2500.0]);
+    let mut out = Vec::new();
+    for u in conv.all_units() {
+        if u.difference != 0.0 {
+            continue;
+        }
+        let mut bad = 0;
+        let mut first = String::new();
+        let mut panics = 0;
+        for &v in &grid {
+            let mut q = Quantity::new(QValue::Number(v.into()), Some(u.symbol().to_string()));
+            match guarded(|| {
+                let r = q.fit(&conv);
+                (r.is_ok(), q.clone())
+            }) {
+                Err(_) => panics += 1,
+                Ok((_, after)) => {
+                    let ok = match (ends(&after), after.unit().and_then(|x| conv.find_unit(x))) {
+                        (Some((lo, _)), Some(au)) => au.physical_quantity == u.physical_quantity && (lo * std_ratio(&au) - v * std_ratio(&u)).abs() <= 1e-6 * (v * std_ratio(&u)).abs().max(1e-9),
+                        _ => false,
+                    };
+                    if !ok {
+                        bad += 1;
+                        if first.is_empty() {
+                            first = format!("{v} {} -> {}", u.symbol(), after);
+                        }
+                    }
+                }
+            }
+        }
+        out.push(json!({"kind_rec": "fit", "unit": crate::project::s(u.symbol()), "values": grid.len(), "bad": bad, "panics": panics, "first": crate::project::s(&first),
+                        "preserved": bad == 0 && panics == 0}));
+    }
+    out
+}
+
 /// amounts of every quantity of a recipe in base units before and after ScaledRecipe::convert
 fn recipe_cases(docs: &[Value], conv: &Converter) -> Vec<Value> {
     docs.par_iter()
@@ -240,6 +285,7 @@ pub fn main(args: &[String]) {
     let mut out: Vec<Value> = recs.par_iter().map(|r| model_case(r, &conv)).collect();
     let std: Value = serde_json::from_str(&std::fs::read_to_string(req_arg(args, "--std")).unwrap()).unwrap();
     out.extend(bundled_cases(&std));
+    out.extend(fit_cases(&std));
     if let Some(d) = arg(args, "--docs") {
         let docs = read_ndjson(d);
         out.extend(recipe_cases(&docs, &conv));
